@@ -452,6 +452,8 @@ fn gen_train_consist(r: &mut Rng) -> Consist {
         if r.chance(0.9) {
             let mut l = if r.chance(0.6) { Locomotive::default() } else { Locomotive::default_battery_electric_loco() };
             l.set_save_interval(None);
+            // a unit without any auxiliary load now and then: at a standstill its battery / engine sees exactly 0 W
+            if r.chance(0.25) { l.pwr_aux_offset = uc::W * 0.0; l.pwr_aux_traction_coeff = uc::R * 0.0; }
             l
         } else {
             let bel = r.chance(0.4);
@@ -524,6 +526,10 @@ fn set_speed_case(ctx: &mut Ctx, r: &mut Rng, steps: usize) {
     if t_first != t_clock { ctx.count("train.ss.trace_start_differs_from_train_clock"); }
     let st0 = TrainState::new(m(len), uc::KG * mass_static, uc::KG * (mass_static * 0.04), uc::KG * (mass_static * 0.6),
         Some(InitTrainState::new(Some(uc::S * t_clock), Some(m(off0)), Some(mps(0.0)))));
+    ctx.checked("C12", "rear_is_front_minus_length");
+    if st0.offset_back.value != st0.offset.value - st0.length.value {
+        ctx.fail("C12", "rear_is_front_minus_length", "row0", format!("constructed state (saved as row 0): offset_back {} != offset {} - length {}", st0.offset_back.value, st0.offset.value, st0.length.value), json!({"kind": "TrainState::new", "init_offset": off0, "length": len}));
+    }
     let Some(res) = make_res(r, &tpc, &st0) else { ctx.count("train.ss.res_err"); return; };
     let con = gen_train_consist(r);
     // speed trace: irregular stamps, stop-and-go, saturating both clips now and then
@@ -738,6 +744,10 @@ fn speed_limit_case(ctx: &mut Ctx, r: &mut Rng, max_steps: usize) {
     let off0 = len + extra;
     let st0 = TrainState::new(m(len), uc::KG * mass_static, uc::KG * (mass_static * 0.04), uc::KG * (mass_static * 0.6),
         Some(InitTrainState::new(Some(uc::S * *r.pick(&[0.0, 0.0, 0.0, 600.0])), Some(m(off0)), Some(mps(0.0)))));
+    ctx.checked("C12", "rear_is_front_minus_length");
+    if st0.offset_back.value != st0.offset.value - st0.length.value {
+        ctx.fail("C12", "rear_is_front_minus_length", "row0", format!("constructed state (saved as row 0): offset_back {} != offset {} - length {}", st0.offset_back.value, st0.offset.value, st0.length.value), json!({"kind": "TrainState::new", "init_offset": off0, "length": len}));
+    }
     let mut sim = SpeedLimitTrainSim::valid();
     sim.path_tpc = PathTpc::new(bu.tp);
     sim.loco_con = gen_train_consist(r);
